@@ -1,6 +1,7 @@
 package main
 
 import (
+	"go/types"
 	"os/exec"
 	"golang.org/x/tools/go/ssa"
 	"encoding/json"
@@ -320,7 +321,7 @@ func checkProp(P *Prog, prop, tier string, perObl int, verbose, keep bool, t0 ti
 		if strings.Contains(k, "#") {
 			continue
 		}
-		if specProps(s)[prop] || hookProps(P)[prop] {
+		if specProps(s)[prop] || (hookProps(P)[prop] && reachesHookedType(P, k)) {
 			// a property served by a protected/onwrite hook is checked at every
 			// access in every function under contract
 			keys = append(keys, k)
@@ -414,4 +415,44 @@ func hookProps(P *Prog) map[string]bool {
 		}
 	}
 	return m
+}
+
+// reachesHookedType: can code of the function's package touch a type that a
+// protected hook guards? Only then can a hook obligation arise in it (the
+// generated XDR codec, which imports nothing of the file system, cannot).
+func reachesHookedType(P *Prog, key string) bool {
+	fn := P.fnByKey[key]
+	if fn == nil || fn.Pkg == nil {
+		return true
+	}
+	hooked := map[string]bool{}
+	for _, h := range P.specs.Hooks {
+		if h.Kind == "protected" && h.Target != nil {
+			t := h.Target
+			for t.Kind == "sel" {
+				t = t.X
+			}
+			if t.Kind == "ident" {
+				hooked[t.Name] = true
+			}
+		}
+	}
+	seen := map[*types.Package]bool{}
+	var visit func(p *types.Package) bool
+	visit = func(p *types.Package) bool {
+		if p == nil || seen[p] {
+			return false
+		}
+		seen[p] = true
+		if hooked[p.Name()] {
+			return true
+		}
+		for _, q := range p.Imports() {
+			if visit(q) {
+				return true
+			}
+		}
+		return false
+	}
+	return visit(fn.Pkg.Pkg)
 }
